@@ -23,6 +23,12 @@ CHECKS["C12"] = dict(level="exploration", engine="sweep",
    note="Trusts zmodel::fse (transcribed from RFC 8878 4.1; predefined tables observationally pinned to libzstd 1.5.7 except offset codes above 20/26, which need >64 MiB windows). Out-of-domain calls the compressor never makes (interleaved coder on <4 symbols, zero-bit forward reads) are excluded.",
    design="3/C12")
 
+CHECKS["C13"] = dict(level="exploration", engine="sweep",
+   technique="complete enumeration over code shapes (symbol count x placement x rank order) and over all short direct weight vectors, against zmodel's canonical Huffman; sections wrapped in frames for libzstd",
+   text="The encoder's code shape depends only on the number of used symbols and their rank order, so every count 2..=256 x 5 placements x 8 rank orders and every rank permutation up to 7/8 symbols is built: complete prefix code (Kraft sum exactly 1, pairwise prefix-free), depth <= 11, monotone in frequency, description direct iff <= 16 weights else FSE-compressed and < 128 bytes, description parsed by the specification parser and by the crate's decoder into the same code lengths / the canonical table, canonical codes equal the encoder's codes. One- and four-stream coding for every split remainder (lengths 1..=12, 1021..=1031, around 4096 / 16384) decoded by the specification. Production path: compress_literals for every symbol count 2..=256 x 3 skews x 10 lengths wrapped in a frame and decoded by the strict walker, libzstd and the crate. Decoder: every direct weight vector of <= 6/7 weights over 0..=15 (16.7M / 268M) and shaped vectors of all lengths 1..=128: accept <=> completes to a power of two with depth <= 11, table equal to the canonical table entry by entry.",
+   note="Trusts zmodel::huf (RFC 8878 4.2), bound to libzstd 1.5.7 by the section frames. Four-stream coding of fewer than 6 literals is outside the compressor's domain and excluded.",
+   design="3/C13")
+
 NOT_YET = {}
 
 def main():
